@@ -213,7 +213,7 @@ def world_fixtures():
         assert "Holder.items" in txt, ("S2b empty class container", txt)
         assert "module object TEMPLATE" in txt, ("S3 module object written through a local alias", txt)
         ref = " | ".join(r.refusals)
-        assert "@swallowing" in ref and "@traced" not in ref, ("W3 transparent vs non-transparent repository decorator", ref)
+        assert "@swallowing" in txt and "@traced" not in txt and "@traced" not in ref, ("W3 transparent vs result-replacing repository decorator", txt, ref)
 
 
 FIXTURE_POS = '''
